@@ -517,13 +517,66 @@ func (k *Case) World() {
 	k.C.Op("world", "ok")
 }
 
-// Dump writes the reads and geom lines of the live world and of every snapshot.
+// Spatial compares, on one world, the answer of the search index with brute force (EachFeature + Matches)
+// for IntersectsFeature{id} of every path and area of the universe, one cap and one cell. No model is
+// involved: the Lean model carries tag tokens only. Each word is `<query>|<ids found>|<ids matching>`.
+// Points that carry nothing but their location are left out of the brute-force side: TokensForFeature
+// does not index them at all, by design.
+func Spatial(w b6.World) string {
+	return hx.Recover(func() string {
+		type named struct {
+			name string
+			q    b6.Query
+			self int // the queried feature itself is left out of both sides (Matches special-cases it)
+		}
+		var qs []named
+		for _, id := range append(append([]int{}, PathIDs...), AreaIDs...) {
+			if w.HasFeatureWithID(FID(id)) {
+				qs = append(qs, named{fmt.Sprintf("f%d", id), b6.IntersectsFeature{ID: FID(id)}, id})
+			}
+		}
+		c := Positions[7][0]
+		centre := s2.PointFromLatLng(s2.LatLngFromDegrees(float64(c[0])/1e7, float64(c[1])/1e7))
+		qs = append(qs, named{"cap", b6.NewIntersectsCap(s2.CapFromCenterAngle(centre, b6.MetersToAngle(60))), -1})
+		qs = append(qs, named{"cell", b6.NewIntersectsCellID(s2.CellIDFromLatLng(s2.LatLngFromPoint(centre)).Parent(17)), -1})
+		var words []string
+		for _, n := range qs {
+			var real, brute []int
+			fs := w.FindFeatures(n.q)
+			for fs.Next() {
+				if id := ModelID(fs.FeatureID()); id != n.self {
+					real = append(real, id)
+				}
+			}
+			w.EachFeature(func(f b6.Feature, _ int) error {
+				if f.FeatureID().Type == b6.FeatureTypePoint && len(f.AllTags()) == 1 {
+					return nil
+				}
+				if ModelID(f.FeatureID()) == n.self {
+					return nil
+				}
+				if n.q.Matches(f, w) {
+					brute = append(brute, ModelID(f.FeatureID()))
+				}
+				return nil
+			}, &b6.EachFeatureOptions{Goroutines: 1})
+			sort.Ints(real)
+			sort.Ints(brute)
+			words = append(words, fmt.Sprintf("%s|%s|%s", n.name, ints(real), ints(brute)))
+		}
+		return strings.Join(words, " ")
+	})
+}
+
+// Dump writes the reads, geom and spatial lines of the live world and of every snapshot.
 func (k *Case) Dump() {
 	k.C.Op("reads live", Reads(k.W))
 	k.C.Op("geom live", Geom(k.W))
+	k.C.Op("spatial live", Spatial(k.W))
 	for i, s := range k.Snaps {
 		k.C.Op(fmt.Sprintf("reads s%d", i+1), Reads(s))
 		k.C.Op(fmt.Sprintf("geom s%d", i+1), Geom(s))
+		k.C.Op(fmt.Sprintf("spatial s%d", i+1), Spatial(s))
 	}
 }
 
